@@ -9,7 +9,9 @@ from ..gen import allocs as AG
 from ..interp import Core, Violation
 from ..layout import address, all_indices, shape_of, tsl_text
 from .accfg_common import Rejected, digest_of, merge, new_outcome
-from .c05 import EL, a8_candidates, gen_steps
+from .c05 import EL as _EL, EL_ODD, a8_candidates, gen_steps
+
+EL = dict(_EL, **EL_ODD)
 
 ID = "C11"
 BUDGET = {"quick": 5000, "thorough": 100000}
@@ -48,7 +50,7 @@ def gen_case(rng, tier):
         "fam": "place",
         "ast": ast,
         "mode": mode,
-        "window": [rng.choice([0x10000000, 0x10000040, 0x1000, 0x10000100]), rng.choice([65536, 4096, 1024, 512, 256, 200, 128, 100])],
+        "window": [rng.choice([0x10000000, 0x10000040, 0x1000, 0x10000100, 0x10000020, 0x10000010]), rng.choice([65536, 4096, 1024, 512, 256, 200, 128, 100])],
         "solver": [rng.choice(["size", "start", "random"]), rng.randrange(1000)],
         "p": [rng.randrange(2), rng.randrange(2)],
     }
